@@ -145,10 +145,15 @@ Definition degrade (red : list V -> W) (r : Z) (nb : W) (m : smap V) : smap W :=
   let s := group_reduce red r (sp m) in
   mkmap nf' (rebuild_idx V m nf') (zrepeat nb nf' ++ zskipn nf' s) nb None.
 
-(* weighted form: the weight storage is aligned with the map storage *)
+(* weighted form: the weight storage [w] is aligned with the map storage *)
 Definition group_reduce2 (red : list (V * W) -> W) (r : Z) (s : list V) (w : list W) : list W :=
   map (fun g => red (combine (zslice s (g * r) ((g + 1) * r)) (zslice w (g * r) ((g + 1) * r))))
       (zrange 0 (zlen s / r)).
+
+Definition degrade2 (red : list (V * W) -> W) (r : Z) (nb : W) (m : smap V) (wsp : list W) : smap W :=
+  let nf' := nfine m / r in
+  let s := group_reduce2 red r (sp m) wsp in
+  mkmap nf' (rebuild_idx V m nf') (zrepeat nb nf' ++ zskipn nf' s) nb None.
 
 (* upgrade: np.repeat(sparse_map, r) *)
 Definition upgrade (r : Z) (m : smap V) : smap V :=
